@@ -50,10 +50,15 @@ theorem bufCell_digit {inp : List Nat} {q off : Nat} (h : ∀ d, inp[q + off]? =
     · exact h ch hch
   · rfl
 
-theorem bufCell_self {inp : List Nat} {q c : Nat} (h : inp[q]? = some c) (hws : isWhitespace c = false) :
-    bufCell inp q 0 = c := by
+theorem bufCell_self {inp : List Nat} {q c : Nat} (h : inp[q]? = some c) (hws : isWhitespace c = false)
+    (hcs : isCommentStart inp q = false) : bufCell inp q 0 = c := by
   unfold bufCell
-  simp [h, hws]
+  simp [h, hws, hcs]
+
+/-- A character other than `/` does not start a comment. -/
+theorem not_commentStart_of_ne {inp : List Nat} {q c : Nat} (h : inp[q]? = some c) (hc : c ≠ 47) :
+    isCommentStart inp q = false := by
+  simp [isCommentStart, h, hc]
 
 theorem readNextToken_op (l : Lx) (sym : Nat) (tt : TT) (hop : opToken sym = some tt)
     (hskip : skipBlanks l.input l.pos = l.pos) (h0 : l.input[l.pos]? = some sym)
@@ -62,29 +67,32 @@ theorem readNextToken_op (l : Lx) (sym : Nat) (tt : TT) (hop : opToken sym = som
   unfold opToken at hop
   split at hop <;> cases hop
   · -- plus
-    have b0 := bufCell_self h0 (by decide)
+    have b0 := bufCell_self h0 (by decide) (not_commentStart_of_ne h0 (by decide))
     simp only [readNextToken, advance, hskip, readBuf_eq, kw, startsWith, b0, List.getD_cons_zero]
     simp
   · -- minus
-    have b0 := bufCell_self h0 (by decide)
+    have b0 := bufCell_self h0 (by decide) (not_commentStart_of_ne h0 (by decide))
     have b1 : (bufCell l.input l.pos 1 == 62) = false := by
       have := bufCell_ne (off := 1) (x := 62) (by decide) halone
       simpa using this
     simp only [readNextToken, advance, hskip, readBuf_eq, kw, startsWith, b0, List.getD_cons_zero]
     simp [b1]
   · -- mul
-    have b0 := bufCell_self h0 (by decide)
+    have b0 := bufCell_self h0 (by decide) (not_commentStart_of_ne h0 (by decide))
     have b1 : (bufCell l.input l.pos 1 == 42) = false := by
       have := bufCell_ne (off := 1) (x := 42) (by decide) halone
       simpa using this
     simp only [readNextToken, advance, hskip, readBuf_eq, kw, startsWith, b0, List.getD_cons_zero]
     simp [b1]
   · -- div
-    have b0 := bufCell_self h0 (by decide)
+    have hcs : isCommentStart l.input l.pos = false := by
+      simp only [standsAlone] at halone
+      simp [isCommentStart, h0, halone.1, halone.2]
+    have b0 := bufCell_self h0 (by decide) hcs
     simp only [readNextToken, advance, hskip, readBuf_eq, kw, startsWith, b0, List.getD_cons_zero]
     simp
   · -- dot
-    have b0 := bufCell_self h0 (by decide)
+    have b0 := bufCell_self h0 (by decide) (not_commentStart_of_ne h0 (by decide))
     have b1 : (bufCell l.input l.pos 1 == 46) = false := by
       have := bufCell_ne (off := 1) (x := 46) (by decide) halone.1
       simpa using this
